@@ -137,7 +137,9 @@ def check_events(ctx):
             ctx.ob('R2', e['where'], e['node'], None, 're-basing is not a subtraction of an offset')
             continue
         ok = off.pair_pos == 0
-        ctx.ob('R2', e['where'], e['node'], True if ok else (False if off.pair_pos == 1 or off.pair_seq is not None else None),
+        upper = off.pair_pos == 1 or bool(off.shift_item and off.shift_item[0] == 1)
+        other = off.pair_seq is not None and off.pair_pos is None and not off.shift_item
+        ctx.ob('R2', e['where'], e['node'], True if ok else (False if (upper or other) else None),
                'offset = lower edge of the same part' if ok else
                'times are re-based by the upper edge / an edge of a different part (negative or shifted times)')
 
